@@ -241,4 +241,32 @@ def encodeTypedDataV4 (fuel : Nat) (p : TypedData) : Outcome Bytes :=
     | .err => .err
     | .panic => .panic
 
+/-! ### fuel that covers a document (proved sufficient in Props.C14) -/
+
+mutual
+  /-- fuel that suffices to encode a value against any type, `M` bounding the members of every struct type -/
+  def need (M : Nat) : Ext → Nat
+    | .obj _ vals => 3 + M + needMax M vals
+    | .arr xs => 2 + xs.length + needMax M xs
+    | _ => 3
+  def needMax (M : Nat) : List Ext → Nat
+    | [] => 3
+    | x :: xs => max (need M x) (needMax M xs)
+end
+
+/-- the largest number of members of any type in the set -/
+def maxMembers : TypeSet → Nat
+  | [] => 0
+  | (_, t) :: r => max (t.getD []).length (maxMembers r)
+
+/-- the type set `EncodeTypedDataV4` works with (EIP712Domain defaulted) -/
+def effectiveTypes (p : TypedData) : TypeSet :=
+  if (tsLookup (p.types.getD []) EIP712Domain).isSome then p.types.getD []
+  else tsInsert (p.types.getD []) EIP712Domain (some [])
+
+/-- fuel that covers the document: the driver runs the model with exactly this much -/
+def docNeed (p : TypedData) : Nat :=
+  max (need (maxMembers (effectiveTypes p)) (p.domain.getD (.obj [] [])))
+      (need (maxMembers (effectiveTypes p)) (p.message.getD .null))
+
 end FFS.Model.Eip712
